@@ -207,6 +207,12 @@ func (sc *c18Scenario) Run(s *simrt.Sim) {
 		})
 		ics[i] = &f
 	}
+	// an interceptor that is never registered: the caller writes it over the slices it passed to Add/Remove afterwards
+	decoyF := network.Interceptor(func(req *http.Request) error {
+		log = append(log, "decoy-never-registered")
+		return nil
+	})
+	decoy := &decoyF
 	// clients: client 0 may have a nil Transport (then http.DefaultTransport is the stub for this run)
 	clients := make([]*http.Client, sc.NCli)
 	for k := range clients {
@@ -348,6 +354,10 @@ func (sc *c18Scenario) Run(s *simrt.Sim) {
 				model = append(model, i)
 			}
 			h.Do("main", "AddInterceptor", st.Ics, func() (interface{}, error) { sh.AddInterceptor(l...); return nil, nil })
+			// the caller owns the slice it spread and reuses it for something else
+			for i := range l {
+				l[i] = decoy
+			}
 		case "Remove":
 			var l []*network.Interceptor
 			rm := map[int]bool{}
@@ -363,6 +373,9 @@ func (sc *c18Scenario) Run(s *simrt.Sim) {
 			}
 			model = nm
 			h.Do("main", "RemoveInterceptor", st.Ics, func() (interface{}, error) { sh.RemoveInterceptor(l...); return nil, nil })
+			for i := range l {
+				l[i] = decoy
+			}
 		case "Clear":
 			model = nil
 			h.Do("main", "ClearInterceptor", nil, func() (interface{}, error) { sh.ClearInterceptor(); return nil, nil })
